@@ -150,6 +150,103 @@ def _fd_alive(fd):
         return False
 
 
+def lenient_then_strict(res, judge):
+    """After a load that KEPT an out-of-range value (readers are lenient), the process is strict again in every respect:
+    the very same assignment - same type, controller and value, on a free module - is rejected."""
+    import rv.api as api
+    import rv.errors as errors
+    from rv.errors import ControllerValueError
+    from rv.modules import MODULE_CLASSES
+    from .. import spec
+    sp = spec.load()
+    for T, t in sorted(sp.items()):
+        if T in ("Output", "MetaModule"):
+            continue
+        cands = [(i, sc) for i, sc in enumerate(c for c in t.controllers if c.attached) if sc.kind == "range"]
+        if not cands:
+            continue
+        i, sc = cands[len(T) % len(cands)]
+        cls = MODULE_CLASSES[t.mtype]
+        v = sc.max + 7
+        chunks = [(c[0], c[1]) for c in iffparse.parse(api.Synth(cls()).read())]
+        idx = [k for k, c in enumerate(chunks) if c[0] == b"CVAL"]
+        if i >= len(idx):
+            continue
+        chunks[idx[i]] = (b"CVAL", struct.pack("<i", v - sc.min if sc.min < 0 else v))
+        case = {"file": f"out-of-range:{T}.{sc.name}", "fault": "lenient-then-strict", "value": v}
+        judge.case = case
+        errors.RAISE_CONTROLLER_VALUE_ERRORS = True
+        for rep in range(2):
+            try:
+                o = judge.wrapped(BytesIO(iffparse.build(chunks)))
+            except Exception:
+                break
+            res.count("loads")
+            if getattr(o.module, sc.name) != v:
+                res.count("lenient_load_did_not_keep_value")
+                break
+            res.count("lenient_loads_keeping_out_of_range")
+            res.case((T, sc.name, "lenient-then-strict", rep))
+            fresh = cls()
+            try:
+                setattr(fresh, sc.name, v)
+            except ControllerValueError:
+                continue
+            except Exception as e:
+                res.violation(f"C18:strict-after-lenient-load:wrong-error:{type(e).__name__}", f"{T}().{sc.name} = {v} after a lenient load of the same value raised {e!r}", case)
+                break
+            res.violation("C18:strict-after-lenient-load:accepted", f"a file holding {T}.{sc.name} = {v} (outside {sc.min}..{sc.max}) was loaded; afterwards {T}().{sc.name} = {v} is accepted "
+                                                                    f"without ControllerValueError (flag is {errors.RAISE_CONTROLLER_VALUE_ERRORS!r})", case)
+            break
+
+
+def big_file_failures(res, judge, tdir):
+    """Files of a few MiB, loaded by name, that fail late: descriptors (also ones obtained through mappings or duplicates)
+    are back to what they were while the exception is still held by the caller."""
+    import rv.api as api
+    p = api.Project()
+    smp = p.new_module(api.m.Sampler)
+    s = smp.Sample()
+    s.data, s.format, s.channels = bytes(3 * 1024 * 1024), smp.Format.int16, smp.Channels.stereo
+    smp.samples[0] = s
+    p.new_module(api.m.Amplifier, name="late module")
+    raw = p.read()
+    pos = raw.rfind(b"Amplifier\0")
+    variants = [("good", raw), ("late-unknown-type", raw[:pos] + b"Amplifiex\0" + raw[pos + 10:]), ("truncated", raw[:len(raw) - 40])]
+    for kind, data in variants:
+        path = os.path.join(tdir, f"big-{kind}.sunvox")
+        with open(path, "wb") as f:
+            f.write(data)
+        for arg in (path, Path(path)):
+            case = {"file": f"big:{kind}", "bytes": len(data), "source": type(arg).__name__}
+            judge.case = case
+            before = _fds()
+            held = None
+            try:
+                judge.wrapped(arg)
+            except BaseException as e:  # noqa
+                held = e
+            res.count("loads")
+            res.count("big_file_loads")
+            res.count("descriptor_checks")
+            leaked = [fd for fd in _fds() - before if _fd_alive(fd)]
+            if leaked:
+                what = []
+                for fd in leaked:
+                    try:
+                        what.append(os.readlink(f"/proc/self/fd/{fd}"))
+                    except OSError:
+                        what.append("?")
+                res.violation(f"C18:descriptor-left-open:{'raise' if held is not None else 'return'}",
+                              f"{len(leaked)} descriptor(s) still open after loading a {len(data)}-byte file by name ({kind}; {type(held).__name__ if held else 'returned'}): {what[:3]}", case)
+                for fd in leaked:
+                    try:
+                        os.close(fd)
+                    except OSError:
+                        pass
+            del held
+
+
 def boundaries(data):
     try:
         return [c[2] for c in iffparse.parse(data)] + [len(data)]
@@ -571,6 +668,10 @@ def run_shard(spec_, res):
                 if spec_["shard"] == 0:
                     import rv.api as api
                     fifo_loads(res, judge, tracker, tdir, api.Synth(api.m.Amplifier()).read(), rng)
+                if spec_["shard"] == 1:
+                    lenient_then_strict(res, judge)
+            if spec_["shard"] == 2:
+                big_file_failures(res, judge, tdir)        # outside the pathlib hook: the library opens these files its own way
             gc.collect()
             rw = [w for w in wlist if issubclass(w.category, ResourceWarning)]
             res.count("resource_warnings", len(rw))
